@@ -344,10 +344,11 @@ func TestC19Programs(t *testing.T) {
 		g := &gen{t: t}
 		var goMain, pyMain strings.Builder
 		var units []unitInfo
+		usesSub := false
 		goDecl := map[string]*strings.Builder{"pa": {}, "pb": {}}
 		nunits := g.n(12, 30, "nunits")
 		for u := 0; u < nunits; u++ {
-			switch k := g.n(0, 9, "unit"); {
+			switch k := g.n(0, 10, "unit"); {
 			case k <= 2: // value to Python and back
 				v := g.value(0)
 				fmt.Fprintf(&goMain, "\t{\n\t\to := %s\n\t\tshow(%d, c.Str(\"value\"), o)\n", goExpr(v), u)
@@ -421,6 +422,28 @@ func TestC19Programs(t *testing.T) {
 				fmt.Fprintf(&goMain, "\t\tshow(%d, c.Str(\"callable\"), %s)\n\t}\n", u, call)
 				fmt.Fprintf(&pyMain, "show(%d, 'callable', %s(%s))\n", u, fn, join(args, pyExpr))
 				units = append(units, unitInfo{fmt.Sprintf("callable_arity_%d", len(args)), fn})
+			case k == 10: // functions of a module and of its dotted submodule bound in the same Go package
+				usesSub = true
+				a, b2 := []string{"usr", "a b", "x/y", ""}[g.n(0, 3, "pa")], []string{"lib", "z.txt", "..", "q"}[g.n(0, 3, "pb")]
+				code := g.n(1, 13, "errno")
+				which := g.n(0, 2, "first")
+				goCalls := []string{
+					fmt.Sprintf("\tshow(%d, c.Str(\"fspath\"), pyos.Fspath(py.Str(%q)))\n", u, a),
+					fmt.Sprintf("\tshow(%d, c.Str(\"join\"), ospath.Join(py.Str(%q), py.Str(%q)))\n", u, a, b2),
+					fmt.Sprintf("\tshow(%d, c.Str(\"basename\"), ospath.Basename(py.Str(%q)))\n", u, a+"/"+b2),
+					fmt.Sprintf("\tshow(%d, c.Str(\"strerror\"), pyos.Strerror(py.Long(%d)))\n", u, code),
+				}
+				pyCalls := []string{
+					fmt.Sprintf("show(%d, 'fspath', os.fspath(%q))\n", u, a),
+					fmt.Sprintf("show(%d, 'join', os.path.join(%q, %q))\n", u, a, b2),
+					fmt.Sprintf("show(%d, 'basename', os.path.basename(%q))\n", u, a+"/"+b2),
+					fmt.Sprintf("show(%d, 'strerror', os.strerror(%d))\n", u, code),
+				}
+				for i := 0; i < 4; i++ {
+					goMain.WriteString(goCalls[(i+which)%4])
+					pyMain.WriteString(pyCalls[(i+which)%4])
+				}
+				units = append(units, unitInfo{"module_and_dotted_submodule", "os + os.path"})
 			case k == 8: // attribute and module lookup by name
 				mod := []string{"math", "sys", "os", "builtins"}[g.n(0, 3, "module")]
 				pairs := map[string][]string{"math": {"pi", "inf", "tau", "e"}, "sys": {"maxsize", "byteorder", "maxunicode"}, "os": {"sep", "name", "curdir"}, "builtins": {"__name__"}}
@@ -448,6 +471,10 @@ func TestC19Programs(t *testing.T) {
 			imports += "\t\"c19mod/" + pk + "\"\n"
 		}
 		defs := "def rev(*a):\\n    return ('rev', len(a)) + a[::-1]\\n\\ndef pick(a, b, c=7, *rest):\\n    return [c, b, a, rest]\\n"
+		if usesSub {
+			imports += "\tpyos \"github.com/goplus/lib/py/os\"\n\t\"c19mod/ospath\"\n"
+			files["ospath/ospath.go"] = "// Package ospath binds a few functions of the Python module os.path.\npackage ospath\n\nimport (\n\t_ \"unsafe\"\n\n\t\"github.com/goplus/lib/py\"\n)\n\nconst LLGoPackage = \"py.os.path\"\n\n//go:linkname Join py.join\nfunc Join(__llgo_va_list ...any) *py.Object\n\n//go:linkname Basename py.basename\nfunc Basename(p *py.Object) *py.Object\n"
+		}
 		files["main.go"] = "package main\n\n" + strings.Replace(goPrelude, "import (", "import (\n"+imports, 1) +
 			"\nvar _, _ = pa.Keep, pb.Keep\n\nfunc main() {\n\tpy.RunSimpleString(c.Str(\"" + defs + "\"))\n" + goMain.String() + "}\n"
 		for _, pk := range []string{"pa", "pb"} {
